@@ -321,6 +321,31 @@ def path_origins(body, blocks, local, upto, depth=0):
     return rv_origins(body, rv, blocks[i], x) or [("expr", blocks[i])]
 
 
+def path_source_local(body, blocks, local, upto, depth=0):
+    """the local that, along this path, ultimately supplies the value of `local` at index `upto`: follows plain copies/moves and reads of a field of a
+    tuple (or struct) that was built on this very path (`let (a, b) = match x { .. => (p, q), .. }`)"""
+    if depth > 12:
+        return local
+    d = _last_def_on_path(body, blocks, local, upto)
+    if d is None or d[0] != "assign":
+        return local
+    kind, x, i = d
+    rv = x["rv"]
+    if rv["k"] == "use" and rv["op"]["k"] in ("copy", "move"):
+        p = rv["op"]["place"]
+        pj = [pr for pr in p["proj"] if pr["k"] != "deref"]
+        if not pj:
+            return path_source_local(body, blocks, p["local"], i, depth + 1)
+        if len(pj) == 1 and pj[0]["k"] == "field":
+            d2 = _last_def_on_path(body, blocks, p["local"], i)
+            if d2 and d2[0] == "assign" and d2[1]["rv"]["k"] == "agg" and (d2[1]["rv"].get("tuple") or "adt" in d2[1]["rv"]):
+                ops = d2[1]["rv"]["ops"]
+                idx = pj[0].get("idx")
+                if idx is not None and idx < len(ops) and ops[idx]["k"] in ("copy", "move") and not [q for q in ops[idx]["place"]["proj"] if q["k"] != "deref"]:
+                    return path_source_local(body, blocks, ops[idx]["place"]["local"], d2[2], depth + 1)
+    return local
+
+
 def ret_origins(body, path, start=0):
     """what the return place holds at the end of the path (path-sensitive through plain copies)"""
     blocks = [start] + [e.dst for e in path]
@@ -501,6 +526,24 @@ def paths_within(body, region, target, limit=5000):
     for en in entries:
         walk(en, [], {en})
     return out
+
+
+def feasible_path(body, p, start=None):
+    """False when the path is contradictory on its face: the same once-assigned bool tested both ways, or a flag that was assigned a constant on this
+    very path tested the other way (e.g. a predicate helper spliced into the view returned `true` and its caller took the `false` branch)"""
+    seen_pol = {}
+    blocks = ([p[0].src] if p else ([start] if start is not None else [])) + [e.dst for e in p]
+    for i, e in enumerate(p):
+        l = e.label
+        if l and l[0] == "bool" and l[2] is not None:
+            src = _bool_source_local(body, l[2])
+            if src in seen_pol and seen_pol[src] != l[1]:
+                return False
+            seen_pol[src] = l[1]
+            po = path_origins(body, blocks, l[2], i)
+            if len(po) == 1 and po[0][0] == "const" and po[0][1] in ("true", "false") and (po[0][1] == "true") != l[1]:
+                return False
+    return True
 
 
 def decisions_to(body, region, target, allowed):
